@@ -205,7 +205,13 @@ Definition dmarker (s : string) : option (string * mkind) :=
   end.
 Definition dattr (s : string) : option (string * list string) :=
   match split "=" s with
-  | [a; l] => let? acc := dstr a in let? names := mapM dstr (split ";" l) in Some (acc, names)
+  | [a; l] =>
+    (* `|` separates the pages in which the attribute module serves the listing; the contract asks for the first page
+       only, so the first page is what the sender "holds" as far as the contract can see *)
+    let first := match split "|" l with p :: _ => p | [] => l end in
+    let? acc := dstr a in
+    if str_empty first then Some (acc, []) else
+    let? names := mapM dstr (split ";" first) in Some (acc, names)
   | _ => None
   end.
 
@@ -408,7 +414,7 @@ Definition step_line (r : rstate) (raw : string) : rstate * list string :=
                           (with_st r st', block line ("OUT ok" :: dump st'))
       | _, _ => (r, malformed line)
       end
-    | "SEEDBID2", k :: rest =>
+    | "SEEDBID2", k :: rest | "SEEDBID2X", k :: rest =>      (* ...X: the same record stored with an undeclared JSON member *)
       match dstr k, dbid2 rest with
       | Some k, Some b => let st' := set_bids st (insert k (SlotV2 b) (st_bids st)) in
                           (with_st r st', block line ("OUT ok" :: dump st'))
@@ -420,7 +426,7 @@ Definition step_line (r : rstate) (raw : string) : rstate * list string :=
 
 (* follow-mode wrapper: processes the dump lines of the implementation's trace *)
 Definition adoptable (kw : string) : bool :=
-  mem kw ["INST"; "INSTF"; "EXEC"; "MIGRATE"; "SEEDVER"; "SEEDNOVER"; "SEEDCFG"; "SEEDASK"; "SEEDBID3"; "SEEDBID2"].
+  mem kw ["INST"; "INSTF"; "EXEC"; "MIGRATE"; "SEEDVER"; "SEEDNOVER"; "SEEDCFG"; "SEEDASK"; "SEEDBID3"; "SEEDBID2"; "SEEDBID2X"].
 Definition run_line (r : rstate) (raw : string) : rstate * list string :=
   let f := rs_follow r in
   if negb (fo_on f) then
@@ -526,6 +532,26 @@ Definition dec_case (line : string) : string :=
   | ["u128"; m; s; n] =>
     match ddec m s n with
     | Some a => match dec_to_u128 a with Some v => show_N v | None => "none" end
+    | None => "bad"
+    end
+  (* the two other ported crates, case by case: Uuid::parse_str / util::is_hyphenated_uuid_str / the hyphenated form;
+     Version::parse and the four version requirements the contract uses *)
+  | ["uuid"; t] =>
+    match dstr t with
+    | Some s => match uuid_parse s with
+                | Some nib => "1 " +++ (if uuid_canonical s then "1" else "0") +++ " " +++ enc (uuid_hyphenated nib)
+                | None => "0"
+                end
+    | None => "bad"
+    end
+  | ["ver"; t] =>
+    match dstr t with
+    | Some s => match version_parse s with
+                | Some v => words [show_N (v_major v); show_N (v_minor v); show_N (v_patch v); if v_has_pre v then "1" else "0";
+                                   if req_ge_0_16_2 v then "1" else "0"; if req_ge_0_15_0 v then "1" else "0";
+                                   if req_window v then "1" else "0"; if req_lt_0_16_2 v then "1" else "0"]
+                | None => "err"
+                end
     | None => "bad"
     end
   | _ => "bad"
